@@ -36,22 +36,18 @@ live set the run leaves — whatever the configuration lists, whatever is
 fetched, whichever writes fail, whatever the key tags are. -/
 theorem run_excludes_barred (P : Params) (cfg : List Key) (d : Disk) (live : List Key)
     (f : Option Fetch) (fl : Faults) (now m : Nat)
-    (hb : Barred d m) (ht : fl.tombRead = false ∨ P.unreadableEmpty = false)
+    (hb : Barred d m)
     (hs : fl.stateRead = true → MarkersCovered d) :
     ∀ k ∈ (autoTA P cfg d live f fl now).live, k.mat ≠ m := by
   by_cases hT : fl.tombRead = true
-  · -- only in the fail-closed variant: the run clears the trust set and aborts
-    have hfix : P.unreadableEmpty = false := by
-      rcases ht with h | h
-      · rw [hT] at h; cases h
-      · exact h
-    have hc : readTomb P d fl = .corrupt := by simp [readTomb, hT, hfix]
+  · -- unreadable store: the run clears the trust set and aborts
+    have hc : readTomb d fl = .corrupt := by simp [readTomb, hT]
     intro k hk
     unfold autoTA at hk
     simp [hc] at hk
   have ht : fl.tombRead = false := by simpa using hT
   -- the in-memory tombstone set after migration contains m (or the store is corrupt)
-  have key : d.tomb = .corrupt ∨ ∃ tomb0, readTomb P d fl = .ok tomb0 ∧ m ∈ migrate (readState d live fl now) tomb0 := by
+  have key : d.tomb = .corrupt ∨ ∃ tomb0, readTomb d fl = .ok tomb0 ∧ m ∈ migrate (readState d live fl now) tomb0 := by
     rcases hb with hc | ⟨ms, hms, hm⟩ | ⟨tas, htas, ta, hta, hmat, hmark⟩
     · exact Or.inl hc
     · right
@@ -79,7 +75,7 @@ theorem run_excludes_barred (P : Params) (cfg : List Key) (d : Disk) (live : Lis
   intro k hk
   unfold autoTA at hk
   rcases key with hc | ⟨tomb0, hrt, hmig⟩
-  · have : readTomb P d fl = .corrupt := by simp [readTomb, ht, hc]
+  · have : readTomb d fl = .corrupt := by simp [readTomb, ht, hc]
     simp only [this] at hk
     cases hk
   · simp only [hrt] at hk
@@ -119,15 +115,11 @@ record: tombstones only grow, and a marker leaves the state file only in a
 replacement that comes after the tombstone replacement that carries it. -/
 theorem run_keeps_barred (P : Params) (cfg : List Key) (d : Disk) (live : List Key)
     (f : Option Fetch) (fl : Faults) (now m : Nat) (n : Nat)
-    (hb : Barred d m) (ht : fl.tombRead = false ∨ P.unreadableEmpty = false)
+    (hb : Barred d m)
     (hs : fl.stateRead = true → MarkersCovered d) :
     Barred (applyWrites d ((autoTA P cfg d live f fl now).writes.take n)) m := by
   by_cases hT : fl.tombRead = true
-  · have hfix : P.unreadableEmpty = false := by
-      rcases ht with h | h
-      · rw [hT] at h; cases h
-      · exact h
-    have hc : readTomb P d fl = .corrupt := by simp [readTomb, hT, hfix]
+  · have hc : readTomb d fl = .corrupt := by simp [readTomb, hT]
     have hw : (autoTA P cfg d live f fl now).writes = [] := by
       unfold autoTA; simp [hc]
     rw [hw]; simpa [applyWrites] using hb
@@ -184,7 +176,7 @@ theorem run_keeps_barred (P : Params) (cfg : List Key) (d : Disk) (live : List K
 /-! ## histories -/
 
 theorem step_keeps_barred (P : Params) (cfg : List Key) (s : Sys) (e : Ev) (m : Nat)
-    (hok : EvOK P s e) (hb : Barred s.disk m) : Barred (step P cfg s e).disk m := by
+    (hok : EvOK s e) (hb : Barred s.disk m) : Barred (step P cfg s e).disk m := by
   cases e with
   | tick dt => exact hb
   | restart => exact hb
@@ -199,14 +191,14 @@ theorem step_keeps_barred (P : Params) (cfg : List Key) (s : Sys) (e : Ev) (m : 
         · exact Or.inl hc
         · exact Or.inr (Or.inl ⟨ms, hms, hmat ▸ hm⟩)
   | run f fl crash =>
-    obtain ⟨ht, hs⟩ := hok
+    have hs := hok
     cases crash with
     | none =>
       have := run_keeps_barred P cfg s.disk (startLive cfg s) f fl s.now m
-        (autoTA P cfg s.disk (startLive cfg s) f fl s.now).writes.length hb ht hs
+        (autoTA P cfg s.disk (startLive cfg s) f fl s.now).writes.length hb hs
       rw [List.take_length] at this
       exact this
-    | some k => exact run_keeps_barred P cfg s.disk (startLive cfg s) f fl s.now m k hb ht hs
+    | some k => exact run_keeps_barred P cfg s.disk (startLive cfg s) f fl s.now m k hb hs
 
 /-- **Revocation records are monotone along every history**: restarts, crashes
 after any prefix of the persistence steps, failures of either or both writes,
@@ -237,14 +229,14 @@ theorem tombstone_permanent_partial (P : Params) (cfg : List Key) (s : Sys) (evs
     ∀ live, (runHist P cfg s (evs ++ [.run f fl none])).proc = some live → ∀ k ∈ live, k.mat ≠ m := by
   obtain ⟨h1, h2⟩ := (histOK_append P cfg s evs _).mp hok
   have hb' := barred_monotone P cfg s evs m h1 hb
-  obtain ⟨⟨ht, hs⟩, _⟩ := h2
+  obtain ⟨hs, _⟩ := h2
   intro live hl k hk
   have hrun : runHist P cfg s (evs ++ [.run f fl none]) =
       step P cfg (runHist P cfg s evs) (.run f fl none) := by simp [runHist]
   rw [hrun] at hl
   simp only [step, runResult, Option.some.injEq] at hl
   subst hl
-  exact run_excludes_barred P cfg _ _ f fl _ m hb' ht hs k hk
+  exact run_excludes_barred P cfg _ _ f fl _ m hb' hs k hk
 
 /-! ## a new revocation: recorded, or fail closed -/
 
@@ -329,17 +321,15 @@ theorem corrupt_store_fail_closed (P : Params) (cfg : List Key) (d : Disk) (live
   unfold autoTA
   simp [readTomb, ht, hc]
 
-/-- **unreadable_store_fail_closed — only for the fail-closed variant of the
-tree** (`P.unreadableEmpty = false`, i.e. the error branch after
-`readTombstones` clears the trust set for every error). For the current tree
-(`unreadableEmpty = true`) the statement is false: see
-`unreadable_store_trusts_tombstoned_key`. -/
-theorem unreadable_store_fail_closed_partial (P : Params) (cfg : List Key) (d : Disk) (live : List Key)
-    (f : Option Fetch) (fl : Faults) (now : Nat)
-    (hfix : P.unreadableEmpty = false) (ht : fl.tombRead = true) :
+/-- **unreadable_store_fail_closed.** A tombstone file that exists but cannot
+be opened or read (any `readTombstones` error other than NotExist) clears the
+live trust set and aborts the refresh: nothing is written — in particular the
+store is not replaced by an empty one. Full strength (tree ≥ 1cde6e3). -/
+theorem unreadable_store_fail_closed (P : Params) (cfg : List Key) (d : Disk) (live : List Key)
+    (f : Option Fetch) (fl : Faults) (now : Nat) (ht : fl.tombRead = true) :
     (autoTA P cfg d live f fl now).live = [] ∧ (autoTA P cfg d live f fl now).writes = [] := by
   unfold autoTA
-  simp [readTomb, ht, hfix]
+  simp [readTomb, ht]
 
 /-! ## unauthenticated responses -/
 
@@ -392,7 +382,7 @@ theorem unauthenticated_changes_nothing (P : Params) (cfg : List Key) (d : Disk)
     (autoTA P cfg d live none fl now).revoked = [] := by
   unfold anchors at h
   unfold autoTA at h ⊢
-  cases hrt : readTomb P d fl with
+  cases hrt : readTomb d fl with
   | corrupt => simp
   | ok tomb0 =>
     simp only [hrt] at h ⊢
@@ -784,8 +774,7 @@ theorem new_key_needs_holddown_partial (P : Params) (hP : thirtyDays ≤ P.addHo
 extracted from its AST on every run). -/
 def treeParams : Params :=
   { addHold := SdnsVerif.Gen.C09.add_holddown_hours * 3600,
-    remHold := SdnsVerif.Gen.C09.missing_holddown_hours * 3600,
-    unreadableEmpty := SdnsVerif.Gen.C09.shape_unreadable_tombstones_use_empty_map }
+    remHold := SdnsVerif.Gen.C09.missing_holddown_hours * 3600 }
 
 /-- the add hold-down of the tree is at least 30 days and is measured from
 `FirstSeen` (the instant the key was first seen, never refreshed while pending). -/
@@ -800,16 +789,15 @@ theorem tree_missing_holddown_at_least_90d :
 /-- statement order of the persistence tail in the tree is the one the model
 has: tombstones are written before the state file, markers are deleted only in
 the branch where the tombstone write succeeded, the corrupt-store and the
-both-writes-failed branches clear the trust set, an unreadable store is handled
-in exactly one of the two modelled ways (empty map: current tree; clear and
-abort: fail-closed variant — `treeParams.unreadableEmpty` follows the tree), and the pre-fetch publication
+both-writes-failed branches clear the trust set, EVERY `readTombstones` error
+clears the trust set and returns (no fall-through to an empty map), and the pre-fetch publication
 is gated on the prior trust set; the two records live in two distinct files. -/
 theorem tree_persistence_shape :
     SdnsVerif.Gen.C09.shape_tomb_write_before_state_write = true ∧
     SdnsVerif.Gen.C09.shape_markers_dropped_only_after_tomb_ok = true ∧
     SdnsVerif.Gen.C09.shape_corrupt_tombstones_clear_trust = true ∧
-    (SdnsVerif.Gen.C09.shape_unreadable_tombstones_use_empty_map ≠
-      SdnsVerif.Gen.C09.shape_unreadable_tombstones_clear_trust) ∧
+    SdnsVerif.Gen.C09.shape_unreadable_tombstones_clear_trust = true ∧
+    SdnsVerif.Gen.C09.shape_unreadable_tombstones_use_empty_map = false ∧
     SdnsVerif.Gen.C09.shape_both_writes_failed_clears_trust = true ∧
     SdnsVerif.Gen.C09.shape_prefetch_publish_gated_on_prior = true ∧
     SdnsVerif.Gen.C09.state_file ≠ SdnsVerif.Gen.C09.tombstone_file := by decide
